@@ -1,97 +1,571 @@
+// C06 — Native token operations conserve supply and respect authorization.
+//
+// Model-based exploration: every ONT/ONG transfer/approve/transferFrom (V1 and V2) is a real
+// signed invoke transaction executed in a real block of a solo-consensus ledger; the oracle
+// reads the committed contract storage (all balance/allowance keys found by iterator) and
+// compares it with a reference ledger.
 package main
 
 import (
+	"crypto/sha256"
+	"encoding/hex"
+	"encoding/json"
 	"fmt"
 	"math/big"
 	"os"
+	"path/filepath"
+	"sort"
+	"strings"
+	"sync"
 
 	"github.com/ontio/ontology/account"
 	"github.com/ontio/ontology/common"
 	"github.com/ontio/ontology/common/config"
 	"github.com/ontio/ontology/common/constants"
 	"github.com/ontio/ontology/core/types"
+	"github.com/ontio/ontology/smartcontract/event"
 	nutils "github.com/ontio/ontology/smartcontract/service/native/utils"
 	"verifharness/lib/chain"
 	"verifharness/lib/vf"
 )
 
-type st struct {
-	From, To common.Address
-	Value    *big.Int
+type netCfg struct {
+	name     string
+	id       uint32
+	v2       bool   // V2 methods registered at the heights we reach
+	wrap     bool   // ONT `transfer` decodes amounts mod 2^64 at the heights we reach
+	deadline uint32 // holder-unbound deadline (offset from genesis time); 0 = no unbinding
 }
 
+var (
+	openMu  sync.Mutex
+	scratch string
+)
+
 func main() {
-	dir := vf.Scratch("c06probe")
-	defer os.RemoveAll(dir)
-	for _, net := range []uint32{config.NETWORK_ID_SOLO_NET, config.NETWORK_ID_POLARIS_NET, config.NETWORK_ID_MAIN_NET} {
-		w := chain.NewWorld(fmt.Sprint("probe", net), 3)
-		chain.SetupSoloConfig(w.BK)
-		config.DefConfig.P2PNode.NetworkId = net
-		c := &chain.Chain{Dir: fmt.Sprintf("%s/%d", dir, net), BK: w.BK, BKs: []*account.Account{w.BK}}
-		if err := c.Open(); err != nil {
-			panic(err)
+	r := vf.NewRun("C06", "exploration",
+		"seeded call histories on solo-consensus ledgers with network id solo / polaris / main (solo: V1+V2 methods, no ONG unbinding; polaris: V1+V2 and real unbinding before and after the holder deadline; main: V1 only, uint64-wrapping transfer decoding). Each call (ont|ong).(transfer|transferV2|approve|approveV2|transferFrom|transferFromV2) is one signed invoke tx (gas price 0) with a generated signer set (single keys and a 2-of-3 multisig) over 8 addresses incl. both token contracts and the zero address; amounts from {0, 1, within balance, exactly balance, balance+1, allowance, allowance+1, k*10^9+fraction, 2^64-1, 2^64, total supply(+1), 2^128, negative}; transfer lists of 2-4 states incl. late-failing elements; 1 tx per block (1-4 on solo). A case = one call; non-trivial unless amount is 0; distinct by (network, call, participants, amounts, signer set)")
+	scratch = vf.Scratch("c06")
+	defer os.RemoveAll(scratch)
+	rng := vf.NewRNG(vf.Seed())
+
+	// network ids: all chain-configuration facts the model needs are read from the real config
+	nets := []*netCfg{{name: "solo", id: config.NETWORK_ID_SOLO_NET}, {name: "polaris", id: config.NETWORK_ID_POLARIS_NET}, {name: "main", id: config.NETWORK_ID_MAIN_NET}}
+	chains := map[string]int{"solo": vf.N(20, 150), "polaris": vf.N(14, 110), "main": vf.N(6, 40)}
+	blocks := vf.N(200, 400)
+	workers := 8
+	if vf.Thorough() {
+		workers = 12
+	}
+	u := newUniverse("c06")
+	for ni, net := range nets {
+		chain.SetupSoloConfig(u.actors[0].Keys[0])
+		config.DefConfig.P2PNode.NetworkId = net.id
+		config.DefConfig.P2PNode.EVMChainId = config.GetEip155ChainID(net.id)
+		const maxHeight = 100000
+		net.v2 = config.GetAddDecimalsHeight() == 0
+		if !net.v2 && config.GetAddDecimalsHeight() <= maxHeight {
+			panic("V2 activation height inside the generated range")
 		}
-		_, n0, d0 := c.DumpState()
-		fmt.Println("net", net, "genesis keys", n0, "deadline", config.GetOntHolderUnboundDeadline(), "v2h", config.GetAddDecimalsHeight())
-		for k, v := range d0 {
-			if len(k) >= 20 && (k[:20] == string(nutils.OntContractAddress[:]) || k[:20] == string(nutils.OngContractAddress[:])) {
-				fmt.Printf("  %x = %x\n", k, v)
-			}
+		net.wrap = config.GetUint64WrappingHeight() >= maxHeight
+		if !net.wrap && config.GetUint64WrappingHeight() != 0 {
+			panic("wrapping height inside the generated range")
 		}
-		step := func(name string, ts uint32, txs ...*types.Transaction) {
-			_, _, before := c.DumpState()
-			b, err := c.MakeBlock(txs, ts)
-			if err != nil {
-				fmt.Printf("%+v bk=%v n=%d\n", err, c.BK != nil, len(txs))
-				panic(err)
-			}
-			res, err := c.CommitExec(b)
-			if err != nil {
-				fmt.Println(name, "COMMIT ERR", err)
-				return
-			}
-			_, _, after := c.DumpState()
-			fmt.Println("==", name, "h", c.Ledger.GetCurrentBlockHeight())
-			for _, n := range res.Notify {
-				fmt.Printf("   notify state=%d gas=%d n=%d\n", n.State, n.GasConsumed, len(n.Notify))
-			}
-			for _, l := range chain.DiffDumps(before, after, 30) {
-				fmt.Println("   ", l)
-			}
+		net.deadline = config.GetOntHolderUnboundDeadline()
+		r.Extra("net_"+net.name, map[string]interface{}{"id": net.id, "v2": net.v2, "wrapV1": net.wrap, "holderDeadline": net.deadline})
+		sub := rng.Sub(uint64(ni))
+		n := chains[net.name]
+		vf.Parallel(n, workers, func(i int) {
+			runChain(r, u, net, i, sub.Sub(uint64(i)), blocks)
+		})
+	}
+
+	for _, tk := range []string{"ont", "ong"} {
+		for _, m := range []string{"transfer", "transferV2", "approve", "approveV2", "transferFrom", "transferFromV2"} {
+			r.Require("ok/"+tk+"."+m, 20)
 		}
-		step("empty", 0)
-		mk := func(contract common.Address, method string, p interface{}, signers ...int) *types.Transaction {
-			mt, err := w.TB.Native(0, 20000, contract, method, []interface{}{p})
-			if err != nil {
-				panic(err)
-			}
-			sg := []*accountT{}
-			_ = sg
-			if len(signers) == 0 {
-				chain.Sign(mt, w.BK)
+		r.Require("supply-checked/"+tk, 100)
+	}
+	for _, reason := range []string{"no-witness", "insufficient-balance", "insufficient-allowance", "over-supply", "amount-not-uint64", "negative-amount", "v2-not-enabled"} {
+		r.Require("fail/"+reason, 10)
+	}
+	for _, c := range []string{"false-noop", "atomicity/late-element-fails", "atomicity/list-ok", "self-transfer/ok", "self-transfer/over-balance-rejected",
+		"transferFrom/from==to/ok", "transferFrom/owner-signs-not-spender/rejected", "signer/multisig-debited", "keyless-from/rejected",
+		"failed-block/dump-identical", "multi-tx-block", "authorized-debit/signer", "authorized-debit/allowance", "authorized-debit/unbound-ong",
+		"unbound-ong/approved-before-deadline", "unbound-ong/moved-after-deadline", "unbound-ong/claimed-by-transferFrom", "time/before-deadline", "time/after-deadline", "time/at-deadline",
+		"v2-balance-item", "wrapped-amount/main", "net/solo", "net/polaris", "net/main"} {
+		r.Require(c, 3)
+	}
+	r.Assume("block execution does not verify transaction signatures (the validators do); witnesses are the addresses of the attached signature sets — the monitor attaches real signatures")
+	r.Assume("gas price 0: no fee transfer interferes with the judged balances")
+	r.Assume("the amount of ONG unbound by an ONT transfer is not recomputed by the model (C09 covers it): only its shape is checked — ONG leaves the ONT contract address and reaches the holders named in the call, nothing else moves")
+	os.RemoveAll(scratch)
+	r.Finish()
+}
+
+// ---------------------------------------------------------------- one chain
+
+type blockRec struct {
+	Height uint32                   `json:"height"`
+	Time   uint32                   `json:"time"`
+	Ops    []map[string]interface{} `json:"ops"`
+	States []byte                   `json:"tx_states"`
+}
+
+func timestamps(net *netCfg, rng *vf.RNG, L int) []uint32 {
+	ts := make([]uint32, L+2)
+	g := constants.GENESIS_BLOCK_TIMESTAMP
+	if net.deadline == 0 {
+		t := g + 50
+		for i := 1; i <= L+1; i++ {
+			t += uint32(1 + rng.Intn(3000))
+			ts[i] = t
+		}
+		return ts
+	}
+	// first part strictly before the deadline, then deadline-1, deadline, deadline+1, then after
+	cross := L*2/5 + rng.Intn(L/5+1)
+	var pre []uint32
+	for i := 0; i < cross; i++ {
+		pre = append(pre, g+100+uint32(rng.U64()%uint64(net.deadline-2000)))
+	}
+	sort.Slice(pre, func(a, b int) bool { return pre[a] < pre[b] })
+	t := g + 50
+	for i := 1; i <= L+1; i++ {
+		switch {
+		case i <= cross:
+			if pre[i-1] <= t {
+				t++
 			} else {
-				for _, s := range signers {
-					chain.Sign(mt, w.Accts[s])
+				t = pre[i-1]
+			}
+		case i == cross+1:
+			t = g + net.deadline - 1
+		case i == cross+2:
+			t = g + net.deadline
+		case i == cross+3:
+			t = g + net.deadline + 1
+		default:
+			if rng.Chance(15) {
+				t += uint32(86400 * (1 + rng.Intn(200)))
+			} else {
+				t += uint32(1 + rng.Intn(5000))
+			}
+		}
+		ts[i] = t
+	}
+	return ts
+}
+
+func fundingOps(u *universe, net *netCfg) [][]*op {
+	bk := u.actors[0]
+	var blocks [][]*op
+	mk := func(token, method string, to int, v string) *op {
+		x, _ := new(big.Int).SetString(v, 10)
+		return &op{Token: token, Method: method, States: []xfer{{From: bk.Addr, To: u.actors[to].Addr, Value: x}}, Signers: []int{0}, Shape: "funding"}
+	}
+	blocks = append(blocks, []*op{mk("ont", "transfer", 1, "5000")}, []*op{mk("ont", "transfer", 2, "120")}, []*op{mk("ont", "transfer", 4, "900")})
+	if net.v2 {
+		blocks = append(blocks, []*op{mk("ont", "transferV2", 3, "77500000001")})
+	} else {
+		blocks = append(blocks, []*op{mk("ont", "transfer", 3, "77")})
+	}
+	if net.id == config.NETWORK_ID_SOLO_NET { // only on a solo net does the bookkeeper own the ONG
+		blocks = append(blocks, []*op{mk("ong", "transfer", 1, "400000")}, []*op{mk("ong", "transferV2", 2, "123456789123456789")},
+			[]*op{mk("ong", "transfer", 4, "31")}, []*op{mk("ong", "transferV2", 3, "999999999")})
+	}
+	return blocks
+}
+
+func runChain(r *vf.Run, u *universe, net *netCfg, idx int, rng *vf.RNG, L int) {
+	tag := fmt.Sprintf("%s-%d", net.name, idx)
+	dir := filepath.Join(scratch, tag)
+	c := &chain.Chain{Dir: dir, BK: u.actors[0].Keys[0], BKs: []*account.Account{u.actors[0].Keys[0]}}
+	openMu.Lock()
+	err := c.Open()
+	openMu.Unlock()
+	if err != nil {
+		r.Inconclusive("cannot open ledger: " + err.Error())
+		return
+	}
+	defer func() {
+		c.Close()
+		os.RemoveAll(dir)
+	}()
+	r.Count("net/" + net.name)
+	tb := chain.NewTxBuilder(uint32(1000 + idx*1000000))
+	g := &gen{rng: rng, u: u, net: net}
+	ts := timestamps(net, rng.Sub(999), L)
+	before := takeSnapshot(c)
+	model := before.ledger()
+	var history []blockRec
+	funding := fundingOps(u, net)
+
+	for h := 1; h <= L; h++ {
+		// ---- generate the block's calls
+		var ops []*op
+		if h <= len(funding) {
+			ops = funding[h-1]
+		} else {
+			n := 1
+			if net.deadline == 0 && rng.Chance(35) {
+				n = 2 + rng.Intn(3)
+			}
+			work := model
+			for i := 0; i < n; i++ {
+				o := g.next(work)
+				ops = append(ops, o)
+				if n > 1 { // later calls of the block are generated against the expected intermediate state
+					if ex, nx := work.expect(o, ctxOf(u, net, o)); ex.outcome == "ok" {
+						work = nx
+					}
 				}
 			}
-			return chain.Immutable(mt)
 		}
-		a0, a1 := w.Accts[0].Address, w.Accts[1].Address
-		step("ont bk->a0 100", 0, mk(nutils.OntContractAddress, "transfer", []st{{w.BK.Address, a0, big.NewInt(100)}}))
-		step("ont a0->a1 10", 0, mk(nutils.OntContractAddress, "transfer", []st{{a0, a1, big.NewInt(10)}}, 0))
-		step("ont a0->a1 V2 1.5", 0, mk(nutils.OntContractAddress, "transferV2", []st{{a0, a1, big.NewInt(1500000000)}}, 0))
-		step("ont a0->a1 unauth", 0, mk(nutils.OntContractAddress, "transfer", []st{{a0, a1, big.NewInt(10)}}, 1))
-		step("ont a0->a1 multi 2nd fails", 0, mk(nutils.OntContractAddress, "transfer", []st{{a0, a1, big.NewInt(1)}, {a0, a1, big.NewInt(1000)}}, 0))
-		step("ont a0->a1 huge", 0, mk(nutils.OntContractAddress, "transfer", []st{{a0, a1, new(big.Int).Lsh(big.NewInt(1), 70)}}, 0))
-		dl := config.GetOntHolderUnboundDeadline() + constants.GENESIS_BLOCK_TIMESTAMP
-		if config.GetOntHolderUnboundDeadline() > 0 {
-			step("ont a0->a1 10 at deadline-5", dl-5, mk(nutils.OntContractAddress, "transfer", []st{{a0, a1, big.NewInt(10)}}, 0))
-			step("ont a0->a1 10 at deadline", dl, mk(nutils.OntContractAddress, "transfer", []st{{a0, a1, big.NewInt(10)}}, 0))
-			step("ont a0->a1 10 at deadline+1", dl+1, mk(nutils.OntContractAddress, "transfer", []st{{a0, a1, big.NewInt(10)}}, 0))
-			step("ont a0->a1 10 at deadline+100", dl+100, mk(nutils.OntContractAddress, "transfer", []st{{a0, a1, big.NewInt(10)}}, 0))
+		var txs []*types.Transaction
+		for _, o := range ops {
+			txs = append(txs, buildTx(tb, u, o))
 		}
-		c.Close()
+		b, err := c.MakeBlock(txs, ts[h])
+		if err != nil {
+			r.Inconclusive("MakeBlock: " + err.Error())
+			return
+		}
+		res, err := c.CommitExec(b)
+		if err != nil {
+			// an invoke transaction can never make a block invalid
+			r.Violation("block-rejected", err.Error(), witness(u, net, tag, history, ops, txs, ts[h], nil, nil))
+			return
+		}
+		after := takeSnapshot(c)
+		rec := blockRec{Height: uint32(h), Time: ts[h]}
+		for i, o := range ops {
+			rec.Ops = append(rec.Ops, o.describe(u))
+			rec.States = append(rec.States, res.Notify[i].State)
+		}
+		judge(r, u, net, tag, history, ops, txs, ts[h], res.Notify, model, before, after)
+		history = append(history, rec)
+		if len(history) > 400 {
+			history = history[1:]
+		}
+		before = after
+		model = after.ledger() // resynchronise: one deviation must not cascade
 	}
 }
 
-type accountT struct{}
+func ctxOf(u *universe, net *netCfg, o *op) execCtx {
+	w := map[common.Address]bool{}
+	for _, i := range o.Signers {
+		w[u.actors[i].Addr] = true
+	}
+	return execCtx{v2Enabled: net.v2, wrapV1: net.wrap, witness: w}
+}
+
+func witness(u *universe, net *netCfg, tag string, history []blockRec, ops []*op, txs []*types.Transaction, ts uint32, before, after *snapshot) map[string]interface{} {
+	w := map[string]interface{}{"network": net.name, "network_id": net.id, "chain": tag, "block_time": ts, "history_blocks": history}
+	var od []map[string]interface{}
+	for _, o := range ops {
+		od = append(od, o.describe(u))
+	}
+	w["block_calls"] = od
+	var raw []string
+	for _, t := range txs {
+		raw = append(raw, hex.EncodeToString(t.ToArray()))
+	}
+	w["block_tx_hex"] = raw
+	if before != nil {
+		st := map[string]string{}
+		for k, v := range before.bal {
+			if v.Sign() != 0 {
+				st["balance "+prettyKey(u, k)] = fmtAmt(v)
+			}
+		}
+		for k, v := range before.allow {
+			if v.Sign() != 0 {
+				st["allowance "+prettyKey(u, k)] = fmtAmt(v)
+			}
+		}
+		w["state_before"] = st
+	}
+	if before != nil && after != nil {
+		w["storage_diff"] = chain.DiffDumps(before.raw, after.raw, 40)
+	}
+	return w
+}
+
+func prettyKey(u *universe, k string) string {
+	p := strings.Split(k, "|")
+	for i := 1; i < len(p); i++ {
+		if a, err := common.AddressFromHexString(p[i]); err == nil {
+			if x, ok := u.byAddr[a]; ok {
+				p[i] = x.Name
+			}
+		}
+	}
+	return strings.Join(p, " ")
+}
+
+// ---------------------------------------------------------------- oracle
+
+func judge(r *vf.Run, u *universe, net *netCfg, tag string, history []blockRec, ops []*op, txs []*types.Transaction, ts uint32,
+	notes []*event.ExecuteNotify, model *ledgerModel, before, after *snapshot) {
+	wit := func() map[string]interface{} { return witness(u, net, tag, history, ops, txs, ts, before, after) }
+	calls := map[string]bool{}
+	for _, o := range ops {
+		calls[o.Token+"."+o.Method] = true
+	}
+	var cl []string
+	for k := range calls {
+		cl = append(cl, k)
+	}
+	sort.Strings(cl)
+	callKey := strings.Join(cl, "+")
+	if len(ops) > 1 {
+		r.Count("multi-tx-block")
+	}
+	if net.deadline > 0 {
+		off := ts - constants.GENESIS_BLOCK_TIMESTAMP
+		switch {
+		case off < net.deadline:
+			r.Count("time/before-deadline")
+		case off == net.deadline:
+			r.Count("time/at-deadline")
+		default:
+			r.Count("time/after-deadline")
+		}
+	}
+
+	// (ii) every balance / allowance item decodes to a non-negative amount
+	for _, b := range after.bad {
+		r.Violation("negative-or-undecodable-item:"+callKey, b, wit())
+	}
+	for _, v := range after.raw {
+		if len(v) > 0 && v[0] == 1 {
+			r.Count("v2-balance-item")
+			break
+		}
+	}
+	// (i) sum over ALL balance keys of each token unchanged, and equal to the total supply
+	for _, tk := range []string{"ont", "ong"} {
+		r.Count("supply-checked/" + tk)
+		if a, b := after.total(tk), before.total(tk); a.Cmp(b) != 0 {
+			r.Violation("supply-changed:"+tk+":"+callKey, fmt.Sprintf("sum of %s balances %s -> %s", tk, fmtAmt(b), fmtAmt(a)), wit())
+		} else if a.Cmp(supplyS[tk]) != 0 {
+			r.Violation("supply-not-total:"+tk, fmt.Sprintf("sum of %s balances %s, total supply %s", tk, fmtAmt(a), fmtAmt(supplyS[tk])), wit())
+		}
+		if after.supply[tk] == nil || after.supply[tk].Cmp(supplyS[tk]) != 0 {
+			r.Violation("total-supply-key-changed:"+tk+":"+callKey, fmt.Sprintf("%v", after.supply[tk]), wit())
+		}
+	}
+
+	// (iii)/(v) per call: observed outcome against the reference ledger's preconditions
+	work := model
+	changed := false // some call of the block is expected/observed to have changed state
+	desync := false
+	holders := map[common.Address]bool{}
+	var lastFail string
+	for i, o := range ops {
+		cx := ctxOf(u, net, o)
+		ex, next := work.expect(o, cx)
+		ok := notes[i].State == event.CONTRACT_STATE_SUCCESS
+		call := o.Token + "." + o.Method
+		nontrivial := false
+		for _, s := range o.States {
+			if s.Value.Sign() != 0 {
+				nontrivial = true
+			}
+		}
+		fp := ""
+		if nontrivial {
+			j, _ := json.Marshal(o.describe(u))
+			hsum := sha256.Sum256(append([]byte(net.name), j...))
+			fp = hex.EncodeToString(hsum[:12])
+		}
+		r.Eval(fp)
+		r.Count("call/" + call)
+		r.Count("shape/" + o.Shape)
+		if i == 0 && o.Shape != "funding" {
+			r.Sample(map[string]interface{}{"network": net.name, "call": o.describe(u), "tx_success": ok, "model": ex.outcome + "/" + ex.reason})
+		}
+		switch {
+		case ok && ex.outcome == "ok":
+			work = next
+			changed = true
+			r.Count("ok/" + call)
+			for _, hd := range ex.holders {
+				holders[hd] = true
+			}
+			observeOK(r, u, o, ex)
+		case ok && ex.outcome == "false-noop":
+			r.Count("false-noop")
+		case ok && ex.outcome == "fail":
+			changed = true
+			desync = true
+			if ex.relevant {
+				key := fmt.Sprintf("success-despite-%s:%s", ex.reason, call)
+				if ex.elem > 0 {
+					key += ":later-list-element"
+				}
+				r.Violation(key, fmt.Sprintf("call %d of the block succeeded although the reference ledger says %s (element %d)", i, ex.reason, ex.elem), wit())
+			} else {
+				r.Count("drift/success-despite-" + ex.reason)
+				r.Inconclusive(fmt.Sprintf("model drift: %s succeeded although the model expects %s", call, ex.reason))
+			}
+		case !ok && ex.outcome == "fail":
+			r.Count("fail/" + ex.reason)
+			lastFail = ex.reason
+			observeFail(r, u, o, ex)
+		default: // failed although every modelled precondition holds: not a violation of the statement, but the workload is no longer what it claims
+			r.Count("drift/unexpected-failure/" + call)
+			r.Inconclusive(fmt.Sprintf("model drift: %s (%s) failed although the model expects %s", call, o.Shape, ex.outcome))
+			lastFail = "unexpected"
+		}
+	}
+
+	// (iv) a block in which no call succeeded with effects leaves the whole contract storage untouched
+	if !changed {
+		if d := chain.DiffDumps(before.raw, after.raw, 10); len(d) > 0 {
+			key := "failed-call-changed-state:" + callKey + ":" + lastFail
+			r.Violation(key, fmt.Sprintf("no call of the block succeeded, but %d storage items changed: %v", len(d), d), wit())
+		} else {
+			r.Count("failed-block/dump-identical")
+		}
+		return
+	}
+	if desync {
+		return
+	}
+
+	// (v) balances and allowances equal the reference ledger's, up to the unbound-ONG side channel
+	ontC := nutils.OntContractAddress
+	var mism []string
+	moved := new(big.Int)
+	for _, k := range diffMaps(work.bal, after.bal) {
+		p := strings.Split(k, "|")
+		a, _ := common.AddressFromHexString(p[1])
+		if p[0] == "ong" && len(holders) > 0 && (a == ontC || holders[a]) {
+			d := new(big.Int).Sub(zeroIfNil(after.bal[k]), zeroIfNil(work.bal[k]))
+			if a == ontC && !holders[a] {
+				if d.Sign() > 0 {
+					r.Violation("unbound-ong-pattern:ont-contract-gained:"+callKey, fmt.Sprintf("ONT contract's ONG balance grew by %s", fmtAmt(d)), wit())
+				}
+				moved.Sub(moved, d)
+			} else if d.Sign() < 0 && a != ontC {
+				r.Violation("unbound-ong-pattern:holder-lost-ong:"+callKey, fmt.Sprintf("%s lost %s ONG in an ONT transfer", u.name(a), fmtAmt(new(big.Int).Neg(d))), wit())
+			}
+			continue
+		}
+		mism = append(mism, "balance "+prettyKey(u, k)+fmt.Sprintf(" model=%s observed=%s", fmtAmt(zeroIfNil(work.bal[k])), fmtAmt(zeroIfNil(after.bal[k]))))
+	}
+	if moved.Sign() > 0 {
+		r.Count("unbound-ong/moved-after-deadline")
+	}
+	for _, k := range diffMaps(work.allow, after.allow) {
+		p := strings.Split(k, "|")
+		f, _ := common.AddressFromHexString(p[1])
+		t, _ := common.AddressFromHexString(p[2])
+		if p[0] == "ong" && f == ontC && holders[t] {
+			if zeroIfNil(after.allow[k]).Cmp(zeroIfNil(work.allow[k])) > 0 {
+				r.Count("unbound-ong/approved-before-deadline")
+			}
+			continue
+		}
+		mism = append(mism, "allowance "+prettyKey(u, k)+fmt.Sprintf(" model=%s observed=%s", fmtAmt(zeroIfNil(work.allow[k])), fmtAmt(zeroIfNil(after.allow[k]))))
+	}
+	if len(mism) > 0 {
+		what := "balance"
+		if strings.HasPrefix(mism[0], "allowance") {
+			what = "allowance"
+		}
+		r.Violation("state-differs-from-model:"+what+":"+callKey, strings.Join(mism, "; "), wit())
+	}
+
+	// (iii) observation-only authorization check (single-call blocks): every address whose balance went down
+	if len(ops) == 1 {
+		o := ops[0]
+		cx := ctxOf(u, net, o)
+		for _, tk := range []string{"ont", "ong"} {
+			for _, k := range diffMaps(before.bal, after.bal) {
+				if !strings.HasPrefix(k, tk+"|") {
+					continue
+				}
+				dec := new(big.Int).Sub(zeroIfNil(before.bal[k]), zeroIfNil(after.bal[k]))
+				if dec.Sign() <= 0 {
+					continue
+				}
+				p := strings.Split(k, "|")
+				a, _ := common.AddressFromHexString(p[1])
+				switch {
+				case tk == o.Token && cx.witness[a] && o.kind() == "transfer":
+					r.Count("authorized-debit/signer")
+				case tk == o.Token && o.kind() == "transferFrom" && a == o.States[0].From && cx.witness[o.Sender] &&
+					before.ledger().A(tk, a, o.Sender).Cmp(dec) >= 0 &&
+					new(big.Int).Sub(before.ledger().A(tk, a, o.Sender), dec).Cmp(after.ledger().A(tk, a, o.Sender)) == 0:
+					r.Count("authorized-debit/allowance")
+					if tk == "ong" && a == ontC {
+						r.Count("unbound-ong/claimed-by-transferFrom")
+					}
+				case tk == "ong" && o.Token == "ont" && a == ontC && o.kind() != "approve":
+					r.Count("authorized-debit/unbound-ong")
+				default:
+					r.Violation("unauthorized-debit:"+tk+":"+o.Token+"."+o.Method, fmt.Sprintf("%s of %s decreased by %s without its witness or a sufficient, decremented allowance", tk, u.name(a), fmtAmt(dec)), wit())
+				}
+			}
+		}
+	}
+}
+
+func zeroIfNil(v *big.Int) *big.Int {
+	if v == nil {
+		return new(big.Int)
+	}
+	return v
+}
+
+// coverage bookkeeping for shapes the design calls out
+func observeOK(r *vf.Run, u *universe, o *op, ex expectation) {
+	switch o.kind() {
+	case "transfer":
+		if len(o.States) > 1 {
+			r.Count("atomicity/list-ok")
+		}
+		for _, s := range o.States {
+			if s.From == s.To && s.Value.Sign() > 0 {
+				r.Count("self-transfer/ok")
+			}
+		}
+	case "transferFrom":
+		if o.States[0].From == o.States[0].To {
+			r.Count("transferFrom/from==to/ok")
+		}
+	}
+	for _, d := range ex.debits {
+		if a := u.byAddr[d]; a != nil && a.M > 0 {
+			r.Count("signer/multisig-debited")
+		}
+	}
+	if o.Method == "transfer" && o.Token == "ont" {
+		for _, s := range o.States {
+			if s.Value.Cmp(two64) >= 0 {
+				r.Count("wrapped-amount/main")
+			}
+		}
+	}
+}
+
+func observeFail(r *vf.Run, u *universe, o *op, ex expectation) {
+	if o.kind() == "transfer" && ex.elem > 0 && (ex.reason == "no-witness" || ex.reason == "insufficient-balance" || ex.reason == "over-supply") {
+		r.Count("atomicity/late-element-fails")
+	}
+	if o.kind() == "transfer" && ex.reason == "insufficient-balance" && o.States[ex.elem].From == o.States[ex.elem].To {
+		r.Count("self-transfer/over-balance-rejected")
+	}
+	if o.kind() == "transfer" && ex.reason == "no-witness" {
+		if a := u.byAddr[o.States[ex.elem].From]; a != nil && a.Keys == nil {
+			r.Count("keyless-from/rejected")
+		}
+	}
+	if o.Shape == "transferFrom/owner-signs-not-spender" && ex.reason == "no-witness" {
+		r.Count("transferFrom/owner-signs-not-spender/rejected")
+	}
+}
